@@ -1097,3 +1097,88 @@ class TableMonitor(GroundTruth):
         return (tuple(sorted(self.had_connection)),
                 tuple(sorted((sid, g["kind"], g["peer"], g["identified"], g["ce_ok"], g["node_closed"] is not None, g["env_closed"] is not None,
                               g["dpr_in"], g["dpr_out"], g["failed"], g["established"] is not None) for sid, g in self.c.items())))
+
+
+class AnswerRouteMonitor(GroundTruth):
+    """C09: application answers go only to the requesting connection, at most once; else NotRoutable and nothing is sent."""
+
+    def __init__(self, sc):
+        super().__init__(sc)
+        self.req = {}       # e2e -> dict(sid, ident, j, app_answers=[sids], attempts=[...])
+        self.by_j = {}
+
+    def step(self):
+        sc = self.sc
+        vs = []
+        for ev in self.events():
+            self.absorb(ev)
+            k = ev[0]
+            if k == "in":
+                t, sid, f = ev[1], ev[2], ev[3]
+                if f.h.is_request and f.h.code not in (257, 280, 282):
+                    self.req[f.h.e2e] = {"sid": sid, "ident": f.h.ident(), "j": None, "frames": [], "attempts": [], "expect_none_after": None}
+            elif k == "handle_request":
+                t, app_i, hbh, e2e, j = ev[1], ev[2], ev[3], ev[4], ev[5]
+                if e2e in self.req:
+                    self.req[e2e]["j"] = j
+                    self.by_j[j] = e2e
+            elif k == "env_answer":
+                t, j, res = ev[1], ev[2], ev[3]
+                e2e = self.by_j.get(j)
+                if e2e is None:
+                    continue
+                r = self.req[e2e]
+                g = self.conn(r["sid"])
+                fs = next((s.fs for s in sc.socks if s.fs.sid == r["sid"]), None)
+                routable = self.live(g) and g["ce_ok"] and not g["dpr_in"] and not g["dpr_out"] and fs is not None and not fs.closed
+                first = not any(a[0] == "sent" for a in r["attempts"])
+                r["attempts"].append((res, routable, first, len(r["frames"])))
+                why = "connection-ready" if routable else ("connection-closed" if not self.live(g) or (fs is not None and fs.closed) else "connection-not-ready")
+                if routable and first:
+                    if res != "sent":
+                        vs.append((f"answer-route:submission-fails-although-the-requesting-connection-is-ready:{res}",
+                                   f"request {j} on socket {r['sid']} ident {r['ident']}: send_answer raised {res}"))
+                    else:
+                        r["expect_frame"] = True
+                else:
+                    tag = "second-answer" if not first else why
+                    if res == "sent":
+                        r["expect_none_after"] = (len(r["frames"]), tag)
+                        r["sent_when_not_routable"] = tag
+                    elif res != "NotRoutable":
+                        vs.append((f"answer-route:submission-fails-with-{res}-instead-of-NotRoutable:{tag}", f"request {j} on socket {r['sid']}"))
+            elif k == "out":
+                t, sid, f = ev[1], ev[2], ev[3]
+                if f.h.is_request or f.h.e2e not in self.req:
+                    continue
+                r = self.req[f.h.e2e]
+                if f.h.ident() != r["ident"]:
+                    continue
+                if f.result_code != 2001:
+                    continue            # the node's own error answers are judged by C07/C08
+                r["frames"].append(sid)
+                if sid != r["sid"]:
+                    vs.append(("answer-route:application-answer-transmitted-on-another-connection",
+                               f"request read from socket {r['sid']} ({r['ident']}), its answer was written to socket {sid}"))
+        for e2e, r in self.req.items():
+            own = [x for x in r["frames"] if x == r["sid"]]
+            if len(own) > 1 and not r.get("dup_reported"):
+                r["dup_reported"] = True
+                vs.append(("answer-route:application-answer-transmitted-twice", f"request ident {r['ident']} on socket {r['sid']}: {len(own)} answers"))
+            if r.get("sent_when_not_routable") and not r.get("nr_reported"):
+                n0, tag = r["expect_none_after"]
+                r["nr_reported"] = True
+                wrote = len(r["frames"]) > n0
+                vs.append((f"answer-route:submission-accepted-instead-of-NotRoutable:{tag}:{'and-transmitted' if wrote else 'nothing-transmitted'}",
+                           f"request ident {r['ident']} read from socket {r['sid']}; frames so far on sockets {r['frames']}"))
+            if r.get("expect_frame") and not r.get("frame_checked"):
+                r["frame_checked"] = True
+                g = self.conn(r["sid"])
+                if not own and self.live(g):
+                    vs.append(("answer-route:accepted-answer-never-transmitted-on-the-requesting-connection", f"request ident {r['ident']} socket {r['sid']}"))
+        return vs
+
+    def state(self):
+        return (tuple(sorted((e, r["sid"], r["j"], tuple(r["frames"]), tuple(a[0] for a in r["attempts"])) for e, r in self.req.items())),
+                tuple(sorted((sid, g["kind"], g["peer"], g["ce_ok"], g["node_closed"] is not None, g["env_closed"] is not None, g["dpr_in"])
+                             for sid, g in self.c.items())))
